@@ -40,7 +40,7 @@ def must_see(tier):
                'clear', 'get', 'keys-range', 'iterator-partial',
                'lazy-seq', 'missing-key', 'bad-value', 'cmp-fault',
                'set-algebra', 'resolve', 'pickle', 'add', 'remove', 'spop',
-               'inplace'):
+               'inplace', 'bad-state'):
         m['op:' + op] = 20
     return m
 
@@ -390,6 +390,26 @@ def run_history(fam, kind, rng, rec, h):
                         del x
                     finally:
                         del s_old, s_com, s_new
+                elif r < 0.955 and fam.vc != 'O' and W.tracked_keys:
+                    # a state that turns out unusable half-way: everything
+                    # taken before the bad datum must be given back
+                    op = 'bad-state'
+                    ks = sorted(rng.sample(range(nk), 3))
+                    if is_mapping:
+                        flat = (K(ks[0]), V(0), K(ks[1]), 'bad', K(ks[2]),
+                                V(1))
+                    else:
+                        op = 'get'
+                        flat = None
+                    if flat is not None:
+                        st_ = (flat,)
+                        if is_tree:
+                            st_ = ((st_,),)
+                        f_ = cls()
+                        try:
+                            f_.__setstate__(st_)
+                        finally:
+                            del f_, st_, flat
                 elif r < 0.97:
                     op = 'pickle'
                     d = pickle.dumps(c, 3)
